@@ -57,9 +57,8 @@ class AppRun:
         net = tnet.TNet(spec["attempts"])
         self.net = net
         S.install(sc)
-        saved_sock, saved_ssl = lib._http.socket, lib._http.ssl
-        lib._http.socket = tnet.FakeSocketModule(net)
-        lib._http.ssl = tnet.FakeSSLModule(net)
+        from . import seams
+        netpatch = seams.Patch().apply(seams.socket_pairs(tnet.FakeSocketModule(net)) + seams.ssl_pairs(tnet.FakeSSLModule(net)))
         try:
             kw = {name: self.cb(name) for name in spec["callbacks"]}
             app = lib.websocket.WebSocketApp(spec["url"], **kw)
@@ -123,7 +122,7 @@ class AppRun:
             self.result = res
             return res
         finally:
-            lib._http.socket, lib._http.ssl = saved_sock, saved_ssl
+            netpatch.undo()
             S.uninstall()
             env.uninstall_urandom()
 
